@@ -2,6 +2,8 @@ package proggram
 
 import (
 	"database/sql"
+	"errors"
+	"fmt"
 
 	"gorm.io/gorm"
 	"gorm.io/gorm/clause"
@@ -23,6 +25,18 @@ type Fin struct {
 	DryUnsupported bool
 	// Rep: member of the reduced finisher set (one per code path)
 	Rep bool
+	// Multi: the finisher issues several main statements / exposes no single
+	// statement on the handle it returns (batches, fallbacks, transaction
+	// blocks). C01 leaves these out; C19 checks only "DryRun sends nothing".
+	Multi bool
+	// ExplicitTx: the program itself opens a transaction (Transaction / Begin),
+	// so BEGIN/COMMIT reach the driver in every mode by request.
+	ExplicitTx bool
+	// NoScanDest: the destination cannot receive RETURNING rows in a real run
+	// ([]map destination, the unaddressable sub-slice of a batch, a map update
+	// without model): gorm's Scan panics there. Combined with an explicit
+	// RETURNING call this is a known gorm limitation outside C01/C19.
+	NoScanDest bool
 }
 
 func set(names ...string) map[string]bool {
@@ -42,6 +56,8 @@ var (
 	bCreate = set("TABLE", "ONCONFLICT")
 	bNone   = set()
 )
+
+var errStopBatches = errors.New("proggram: stop after 4 batches")
 
 func closeRows(rows *sql.Rows) {
 	if rows != nil {
@@ -106,7 +122,7 @@ func buildFins() []*Fin {
 		Run: func(db *gorm.DB, c *Ctx, v []Val) *gorm.DB {
 			return db.Model(NewPtr(c.Model)).Updates(NewRec(c.Model, 0, typedSet(c, v)))
 		}})
-	add(&Fin{Label: `Table(own).Where("id > ?",0).UpdateColumns(map{{0}: gorm.Expr("{0} || ?", v)})`, Kind: "update", Write: true, Builds: set("WHERE"), Slots: []SlotSpec{anySlot(0)},
+	add(&Fin{Label: `Table(own).Where("id > ?",0).UpdateColumns(map{{0}: gorm.Expr("{0} || ?", v)})`, NoScanDest: true, Kind: "update", Write: true, Builds: set("WHERE"), Slots: []SlotSpec{anySlot(0)},
 		Run: func(db *gorm.DB, c *Ctx, v []Val) *gorm.DB {
 			return db.Table(TableOf[c.Model]).Where("id > ?", 0).UpdateColumns(map[string]interface{}{c.Col(0): gorm.Expr(c.tpl("{0} || ?"), v[0].V)})
 		}})
@@ -136,7 +152,7 @@ func buildFins() []*Fin {
 		Run: func(db *gorm.DB, c *Ctx, v []Val) *gorm.DB {
 			return db.Model(NewPtr(c.Model)).Create(map[string]interface{}{c.Col(0): v[0].V, c.Col(8): v[1].V})
 		}})
-	add(&Fin{Label: `Model(&M{}).Create([]map{{{0}:v,{8}:w},{{0}:x,{8}:y}})`, Kind: "create", Write: true, Builds: bCreate,
+	add(&Fin{Label: `Model(&M{}).Create([]map{{{0}:v,{8}:w},{{0}:x,{8}:y}})`, NoScanDest: true, Kind: "create", Write: true, Builds: bCreate,
 		Slots: []SlotSpec{anySlot(0), anySlot(8), {J: 0, Row: 1, Classes: AnyClasses}, {J: 8, Row: 1, Classes: AnyClasses}},
 		Run: func(db *gorm.DB, c *Ctx, v []Val) *gorm.DB {
 			return db.Model(NewPtr(c.Model)).Create([]map[string]interface{}{
@@ -172,6 +188,133 @@ func buildFins() []*Fin {
 	add(&Fin{Label: `Exec("DELETE FROM own WHERE {0} = @a AND {1} IN @b", map{a,b})`, Rep: true, Kind: "exec", Write: true, Builds: bNone, Slots: []SlotSpec{anySlot(0), inSlot(1)},
 		Run: func(db *gorm.DB, c *Ctx, v []Val) *gorm.DB {
 			return db.Exec("DELETE FROM "+TableOf[c.Model]+c.tpl(" WHERE {0} = @a AND {1} IN @b"), map[string]interface{}{"a": v[0].V, "b": v[1].V})
+		}})
+	// ---- further executor branches and finishers with their own transaction /
+	// batching / fallback logic
+	fewSlots := func(rows int) []SlotSpec {
+		var out []SlotSpec
+		for r := 0; r < rows; r++ {
+			out = append(out, SlotSpec{J: 0, Row: r, Classes: []Class{CStr, CQuote}}, SlotSpec{J: 1, Row: r, Classes: []Class{CInt}})
+		}
+		return out
+	}
+	fewRecs := func(c *Ctx, v []Val) interface{} {
+		var sets []map[int]interface{}
+		for i := 0; i+1 < len(v); i += 2 {
+			sets = append(sets, map[int]interface{}{c.N(0): v[i].V, c.N(1): v[i+1].V})
+		}
+		return NewRecs(c.Model, sets...)
+	}
+	mapClasses := []Class{CStr, CQMark, CNilPtr, CExpr}
+	mapSlots := func(rows int) []SlotSpec {
+		var out []SlotSpec
+		for r := 0; r < rows; r++ {
+			out = append(out, SlotSpec{J: 0, Row: r, Classes: mapClasses}, SlotSpec{J: 8, Row: r, Classes: mapClasses})
+		}
+		return out
+	}
+	mapRows := func(c *Ctx, v []Val) []map[string]interface{} {
+		var out []map[string]interface{}
+		for i := 0; i+1 < len(v); i += 2 {
+			out = append(out, map[string]interface{}{c.Col(0): v[i].V, c.Col(8): v[i+1].V})
+		}
+		return out
+	}
+
+	add(&Fin{Label: `Table(own).Create(map{{0}:v,{8}:w})`, Kind: "create", Write: true, Builds: set("ONCONFLICT"), Slots: []SlotSpec{anySlot(0), anySlot(8)},
+		Run: func(db *gorm.DB, c *Ctx, v []Val) *gorm.DB {
+			return db.Table(TableOf[c.Model]).Create(map[string]interface{}{c.Col(0): v[0].V, c.Col(8): v[1].V})
+		}})
+	add(&Fin{Label: `Model(&M{ID:5}).UpdateColumns(M{typed fields})`, Kind: "update", Write: true, Builds: bUpdate, Slots: typedSlots(true, 0),
+		Run: func(db *gorm.DB, c *Ctx, v []Val) *gorm.DB {
+			return db.Model(NewRec(c.Model, 5, nil)).UpdateColumns(NewRec(c.Model, 0, typedSet(c, v)))
+		}})
+	add(&Fin{Label: `Save(&M{ID:5, typed fields})`, Kind: "update", Write: true, Builds: bUpdate, Slots: typedSlots(false, 0),
+		Run: func(db *gorm.DB, c *Ctx, v []Val) *gorm.DB { return db.Save(NewRec(c.Model, 5, typedSet(c, v))) }})
+	add(&Fin{Label: `Save(&M{ID:77 (absent), typed fields})`, Rep: true, Kind: "update", Write: true, Builds: bUpdate, Slots: typedSlots(false, 0),
+		Run: func(db *gorm.DB, c *Ctx, v []Val) *gorm.DB { return db.Save(NewRec(c.Model, 77, typedSet(c, v))) }})
+	add(&Fin{Label: `Save(&M{typed fields})`, Kind: "create", Write: true, Builds: bCreate, Slots: typedSlots(false, 0),
+		Run: func(db *gorm.DB, c *Ctx, v []Val) *gorm.DB { return db.Save(NewRec(c.Model, 0, typedSet(c, v))) }})
+	add(&Fin{Label: `Save(&[]M{r0, r1})`, Kind: "create", Write: true, Builds: bCreate, Slots: fewSlots(2),
+		Run: func(db *gorm.DB, c *Ctx, v []Val) *gorm.DB { return db.Save(fewRecs(c, v)) }})
+	add(&Fin{Label: `FirstOrInit(&M{}, map{{0}:v})`, Kind: "query", Builds: bFirst, Slots: []SlotSpec{anySlot(0)},
+		Run: func(db *gorm.DB, c *Ctx, v []Val) *gorm.DB {
+			return db.FirstOrInit(NewPtr(c.Model), map[string]interface{}{c.Col(0): v[0].V})
+		}})
+	add(&Fin{Label: `Model(&M{}).Row()`, Kind: "query", Builds: bQuery, DryUnsupported: true,
+		Run: func(db *gorm.DB, c *Ctx, v []Val) *gorm.DB {
+			tx := db.Model(NewPtr(c.Model)).Session(&gorm.Session{Initialized: true})
+			if row := tx.Row(); row != nil {
+				var x interface{}
+				row.Scan(&x) // releases the connection whatever the column count
+			}
+			return tx
+		}})
+	add(&Fin{Label: `Model(&M{}).Scan(&[]M)`, Kind: "query", Builds: bQuery, DryUnsupported: true,
+		Run: func(db *gorm.DB, c *Ctx, v []Val) *gorm.DB {
+			return db.Model(NewPtr(c.Model)).Scan(NewSlicePtr(c.Model))
+		}})
+
+	add(&Fin{Label: `FirstOrCreate(&M{}, map{{0}:v})`, Kind: "create", Write: true, Multi: true, Builds: bNone, Slots: []SlotSpec{{J: 0, Classes: mapClasses}},
+		Run: func(db *gorm.DB, c *Ctx, v []Val) *gorm.DB {
+			return db.FirstOrCreate(NewPtr(c.Model), map[string]interface{}{c.Col(0): v[0].V})
+		}})
+	add(&Fin{Label: `Assign(map{{8}:w}).FirstOrCreate(&M{}, map{id:5})`, Kind: "update", Write: true, Multi: true, Builds: bNone, Slots: []SlotSpec{{J: 8, Classes: mapClasses}},
+		Run: func(db *gorm.DB, c *Ctx, v []Val) *gorm.DB {
+			return db.Assign(map[string]interface{}{c.Col(8): v[0].V}).FirstOrCreate(NewPtr(c.Model), map[string]interface{}{"id": 5})
+		}})
+	add(&Fin{Label: `FindInBatches(&[]M, 2, fc)`, Kind: "query", Multi: true, Builds: bNone,
+		Run: func(db *gorm.DB, c *Ctx, v []Val) *gorm.DB {
+			// the callback stops after 4 batches: with some chains (an Or unit
+			// next to the key cursor) FindInBatches would never terminate
+			return db.FindInBatches(NewSlicePtr(c.Model), 2, func(tx *gorm.DB, batch int) error {
+				if batch >= 4 {
+					return errStopBatches
+				}
+				return nil
+			})
+		}})
+	for _, n := range []int{2, 3, 5} {
+		n := n
+		add(&Fin{Label: fmt.Sprintf(`CreateInBatches(&[]M{r0, r1, r2}, %d)`, n), Rep: n == 2, NoScanDest: true, Kind: "create", Write: true, Multi: true, Builds: bNone, Slots: fewSlots(3),
+			Run: func(db *gorm.DB, c *Ctx, v []Val) *gorm.DB { return db.CreateInBatches(fewRecs(c, v), n) }})
+	}
+	add(&Fin{Label: `Model(&M{}).CreateInBatches([]map{m0, m1, m2}, 2)`, NoScanDest: true, Kind: "create", Write: true, Multi: true, Builds: bNone, Slots: mapSlots(3),
+		Run: func(db *gorm.DB, c *Ctx, v []Val) *gorm.DB {
+			return db.Model(NewPtr(c.Model)).CreateInBatches(mapRows(c, v), 2)
+		}})
+	add(&Fin{Label: `Session(&Session{CreateBatchSize:2}).Create(&[]M{r0, r1, r2})`, NoScanDest: true, Kind: "create", Write: true, Multi: true, Builds: bNone, Slots: fewSlots(3),
+		Run: func(db *gorm.DB, c *Ctx, v []Val) *gorm.DB {
+			return db.Session(&gorm.Session{CreateBatchSize: 2}).Create(fewRecs(c, v))
+		}})
+	add(&Fin{Label: `Session(&Session{CreateBatchSize:1}).Model(&M{}).Create([]map{m0, m1})`, NoScanDest: true, Kind: "create", Write: true, Multi: true, Builds: bNone, Slots: mapSlots(2),
+		Run: func(db *gorm.DB, c *Ctx, v []Val) *gorm.DB {
+			return db.Session(&gorm.Session{CreateBatchSize: 1}).Model(NewPtr(c.Model)).Create(mapRows(c, v))
+		}})
+	add(&Fin{Label: `Transaction(func(tx){ tx.Create(&M{r0}); tx.Model(&M{ID:5}).Update("{8}", v); tx.Find(&[]M) })`, Rep: true, Kind: "update", Write: true, Multi: true, ExplicitTx: true, Builds: bNone,
+		Slots: append(fewSlots(1), SlotSpec{J: 8, Classes: mapClasses}),
+		Run: func(db *gorm.DB, c *Ctx, v []Val) *gorm.DB {
+			res := db.Session(&gorm.Session{})
+			res.AddError(db.Transaction(func(tx *gorm.DB) error {
+				if err := tx.Create(NewRec(c.Model, 0, map[int]interface{}{c.N(0): v[0].V, c.N(1): v[1].V})).Error; err != nil {
+					return err
+				}
+				if err := tx.Model(NewRec(c.Model, 5, nil)).Update(c.Col(8), v[2].V).Error; err != nil {
+					return err
+				}
+				return tx.Find(NewSlicePtr(c.Model)).Error
+			}))
+			return res
+		}})
+	add(&Fin{Label: `tx := Begin(); tx.Delete(&M{ID:5}); tx.Create(&M{r0}); tx.Commit()`, Kind: "create", Write: true, Multi: true, ExplicitTx: true, Builds: bNone, Slots: fewSlots(1),
+		Run: func(db *gorm.DB, c *Ctx, v []Val) *gorm.DB {
+			tx := db.Begin()
+			if tx.Error != nil {
+				return tx
+			}
+			tx.Delete(NewRec(c.Model, 5, nil))
+			tx.Create(NewRec(c.Model, 0, map[int]interface{}{c.N(0): v[0].V, c.N(1): v[1].V}))
+			return tx.Commit()
 		}})
 	return fins
 }
